@@ -642,8 +642,14 @@ def c06 (cfg : Cfg) (tr : List TE) : List Viol :=
       let ks := os.map fun (_, _, k) => k
       let ks := match ks.idxOf? e.kind with | some i => ks.eraseIdx i | none => ks
       (ks.eraseDups.toArray.qsort (· < ·)).toList
+    -- the side that opened an exchange; an exchange superseded by a LATER exchange of its own side
+    -- under the same message ID (a peer reusing an ID that is still in flight) is not protected
+    let sideOf := fun (k : String) => if k == "client-pub1" || k == "client-pub2" || k == "client-pub0" || k == "subscribe" then "client" else "broker"
+    let supersededBySameSide := fun (e : Exchg) =>
+      opens.any fun (m, t, k) => m == e.mid && t > e.t0 && t ≤ s.t && sideOf k == sideOf e.kind
     let miss := fun (e : Exchg) (what : String) =>
       let ks := others e
+      if supersededBySameSide e && (ks.all fun k => sideOf k == sideOf e.kind) then [] else
       [{ sig := s!"ack-lost/{e.kind}/{what}{if ks.isEmpty then "" else "/same-msgid-collision/with=" ++ String.intercalate "+" ks}", detail := s!"t={s.t} mid={e.mid}" : Viol }]
     let find := fun (kind : String) (mid : UInt16) (stage : Nat) =>
       open_.find? fun (e : Exchg) => e.kind == kind && e.mid == mid && e.stage == stage
@@ -868,7 +874,9 @@ def c12 (tr : List TE) (tEnd : Nat) : List Viol :=
     -- sleep intervals: DISCONNECT(d) at ts … next PINGREQ / CONNECT / DISCONNECT at tw
     let sleeps : List (Nat × Nat × Nat) := cds.filterMap fun (t, p) => match p with
       | .disconnect d => if d == 0 then none else
-          let tw := ((cds.find? fun (t2, p2) => t2 > t && (match p2 with | .pingreq _ | .connect .. | .disconnect _ => true | _ => false)).map (·.1)).getD tStop
+          -- the client stays asleep (a wake-up PINGREQ leaves it asleep again after the PINGRESP) until it
+          -- sends CONNECT or another DISCONNECT
+          let tw := ((cds.find? fun (t2, p2) => t2 > t && (match p2 with | .connect .. | .disconnect _ => true | _ => false)).map (·.1)).getD tStop
           some (t, tw, d.toNat * 1000)
       | _ => none
     let asleepAt := fun (t : Nat) => sleeps.any fun (ts, tw, _) => ts ≤ t && t < tw
@@ -876,7 +884,10 @@ def c12 (tr : List TE) (tEnd : Nat) : List Viol :=
     let times := t0 :: cds.map (·.1)
     let breaksActive := ((times.zip (times.drop 1 ++ [tStop])).filterMap fun (a, b) =>
       if b > a + ka && !asleepAt a && !asleepAt (a + ka) then some (a + ka) else none)
-    let breaksSleep := sleeps.filterMap fun (ts, tw, d) => if tw > ts + d then some (ts + d) else none
+    -- asleep, the client shows up (PINGREQ, CONNECT, DISCONNECT) at least once per announced duration
+    let breaksSleep := sleeps.flatMap fun (ts, tw, d) =>
+      let shows := ts :: ((cds.filter fun (t, _) => t > ts && t ≤ tw).map (·.1))
+      (shows.zip (shows.drop 1 ++ [tw])).filterMap fun (a, b) => if b > a + d then some (a + d) else none
     let tOk := (breaksActive ++ breaksSleep).foldl min tStop
     let outs := t0 :: (mqOutTimes tr).filter fun t => t > t0
     let gaps := outs.zip (outs.drop 1 ++ [tOk])
@@ -889,6 +900,9 @@ def c12 (tr : List TE) (tEnd : Nat) : List Viol :=
         let kind := match sl with
           | some (ts, _, d) =>
             if d ≤ ka then "sleep-not-longer-than-keep-alive-has-no-pinger"
+            -- the pinger covers the first announced period only; a client that wakes up with PINGREQ and
+            -- goes on sleeping (the same duration applies again) has none afterwards
+            else if lim > ts + d then "sleep-cycle-continued-by-pingreq-has-no-pinger"
             else if a < ts + ka then "first-sleep-ping-a-full-keep-alive-after-falling-asleep"
             else "sleep-pinger-silent"
           | none => if inGap.isEmpty then "unexplained" else "client-traffic-answered-locally"
